@@ -133,7 +133,8 @@ def run_case(case):
             for a in res.atoms:
                 resof[(a.x, a.y, a.z)] = ri
         inter = [k for k, (i, j) in enumerate(natural) if resof.get(tuple(data[i])) != resof.get(tuple(data[j]))]
-        dmax = 1 if _tier[0] == "quick" else 2
+        # two deviations only where the number of inter-residue candidate pairs keeps the schedule count in the hundreds (k <= 12: at most ~600 schedules)
+        dmax = 2 if (_tier[0] != "quick" and len(inter) <= 12) else 1
         for perm in fam.schedules(natural, inter, dmax):
             order = fam.apply_schedule(natural, inter, perm)
             seams.PAIR_ORDER.fn = lambda nat, d, order=order: order
